@@ -60,6 +60,10 @@ pub struct Case {
     /// `ImportCapability(true)` step upgrades it - while it is open and has subscribers
     #[serde(default)]
     pub start_readonly: bool,
+    /// a live swarm (real nodes on the loopback network driven through the client API, see livenet.rs): here only what the
+    /// client subscribers saw is judged; everything else in the case is ignored when this is set
+    #[serde(default)]
+    pub live: Option<crate::livenet::LiveCase>,
 }
 
 fn key(k: u8) -> Vec<u8> {
@@ -127,7 +131,11 @@ impl Prop for C12 {
          all three content-status values; after every acknowledged request every channel is drained and compared, as an exact \
          sequence (entry bytes, local/remote, from, status, should_download), with the model applied to the step's valid entries in \
          processing order; independent of the model: an error reply means no event, every event's entry was offered in that step, all \
-         subscribers saw the same sequence, unsubscribed / dropped channels see nothing more; non-trivial = >= 1 rejected or \
+         subscribers saw the same sequence, unsubscribed / dropped channels see nothing more. 1 % of the cases are live swarms (real \
+         nodes on the loopback network, client API): every acknowledged local write appears once, in order, as a local insert \
+         event of the writing node's client subscriber; every foreign entry a node holds at quiescence appeared exactly once as a \
+         remote insert naming one of the other nodes; no remote insert event for an entry nobody wrote, for the node's own entry, \
+         or twice. non-trivial = >= 1 rejected or \
          superseded offer, >= 1 message with >= 2 entries and >= 2 subscribers of which one leaves mid-history; distinct by serialised case"
             .into()
     }
@@ -152,11 +160,28 @@ impl Prop for C12 {
             2 => any::<bool>().prop_map(Step::ImportCapability),
             1 => (0u8..3, 0u8..7, 1u8..4).prop_map(|(a, k, c)| Step::CancelledInsert { a, k, c }),
         ];
-        (vec(step, 1..=max), prop::bool::weighted(0.3)).prop_map(|(steps, start_readonly)| Case { steps, start_readonly }).boxed()
+        let plain = (vec(step, 1..=max), prop::bool::weighted(0.3)).prop_map(|(steps, start_readonly)| Case { steps, start_readonly, live: None });
+        let live = crate::props::c04::live_case().prop_map(|l| Case { steps: vec![], start_readonly: false, live: Some(l) });
+        if std::env::var("DV_LIVE_ONLY").is_ok() {
+            return live.boxed();
+        }
+        prop_oneof![99 => plain, 1 => live].boxed()
     }
 
     fn check(ctx: &mut Ctx, c: &Case) -> Outcome {
         let mut o = Outcome::default();
+        if let Some(l) = &c.live {
+            o.class("live-swarm(client-events)");
+            let r = crate::livenet::run_live(ctx, l, &mut o, "C12");
+            // anything but the subscribers' view is C04's business (the same family runs there with every oracle)
+            let about_events = o.failure.as_ref().map(|f| f.sig.contains("event")).unwrap_or(false);
+            if r.is_err() || (o.failed() && !about_events) {
+                o = Outcome::default();
+                o.class("live-swarm(client-events)");
+                o.class("live/not-judged-here");
+            }
+            return o;
+        }
         verif::set_clock(Some(NOW));
         let r = run(ctx, c, &mut o);
         verif::set_clock(None);
